@@ -67,6 +67,20 @@ CHECKS = {
         note="Stage 1 of DESIGN.md §4 C09 only (no layout model of the formatter yet): the specification supplies the program space and TLC checks the language model's own invariants; idempotence itself is decided on the real formatter. imports.Process is not exercised (stdin path).",
         design="DESIGN.md §4 C09",
         modules=["TemplLang", "MCTemplLang", "TemplVocab", "FmtLayout", "MCFmtLayout"], pkgs=["c08", "templang"]),
+    "C19": dict(
+        level="model_checking",
+        technique="TLA+ process model of the SSE registry, broadcaster, delivery goroutines and client handlers (Sse.tla) model-checked incl. liveness; TLC behaviours replayed step by step on the real handler through a blocking gate hook; stress traces validated by a TLC trace spec",
+        text="TLC checks NoPanic, BroadcasterNeverBlocks, OthersUnaffected, NoLeak and, under fairness, Delivered/SendReturns for 2 clients x 2 broadcasts with a slow client (3 clients in thorough); the original close-on-exit design, the naive never-close repair and send-under-mutex are rejected as negative configs. Every transition of the race-free replay model is covered by complete TLC behaviours that are replayed in -race -tags verif subprocesses: the harness drives client connect/cancel, controlled writes, SendSSE, and releases each delivery goroutine and exiting handler through the gate hook in the prescribed order, observing events per client, exit status and goroutines at quiescence. Seeded stress episodes are logged through the hook and validated line by line by TraceSse.tla.",
+        note="Trusted: the gate hook placement (inside the delivery goroutine before the send; register/unregister under the mutex), the Go race detector. States where a handler's select has two ready cases are covered by MC and validated stress traces, not by deterministic replay.",
+        design="DESIGN.md §4 C19",
+        modules=["Sse", "TraceSse"], pkgs=["c19"]),
+    "C20": dict(
+        level="model_checking",
+        technique="TLA+ pipeline model of the live-reload proxy (Proxy.tla) over an abstract configuration space enumerated exhaustively by TLC; every configuration replayed end to end through the real proxy handler",
+        text="Initial states are the configuration space (content type x content encoding {none, gzip, br, unsupported} x request kind x skip marker x 6 CSP shapes x 7 body shapes x Accept-Encoding): 5 376 configurations; TLC checks PassThroughIsIdentity, HtmlGetsExactlyOneScript, LengthMatchesBody, EncodingHeaderDescribesBody (negative configs: fall-through on unsupported encoding, stale length). Every configuration is replayed: httptest backend -> real proxy.New handler -> HTTP client without transparent decompression, with body sizes around the 4 KiB/32 KiB/64 KiB boundaries and multi-MiB bodies; pass-through judged by byte identity, rewrites by DOM equality (x/net/html) plus exactly one reload script with the page's nonce.",
+        note="Trusted: x/net/html for DOM comparison (the same parser the proxy uses), the document generator. Content-Type sniffing by net/http is recorded as drift. exhaustive over the abstract configuration space.",
+        design="DESIGN.md §4 C20",
+        modules=["Proxy"], pkgs=["c20"]),
 }
 
 NOT_YET = "check not built yet in this round (planned in DESIGN.md §7); not claimed until its spec and conformance harness exist"
